@@ -24,7 +24,11 @@ ENTRIES = [
     Entry('approx-reset-only-when-cached', T, [('        self._resetDrivingForceCache(precPhase, removeCache)\n        return np.squeeze(dg), np.squeeze(xP[unsortIndices[1:]])', '        if self._matrix_cs is None:\n            self._resetDrivingForceCache(precPhase, removeCache)\n        return np.squeeze(dg), np.squeeze(xP[unsortIndices[1:]])')], 'R9.5'),
     Entry('reset-keeps-points', T, [('            self._matrix_cs = None\n            self._points_cache[phase] = SampledPointsCache()', '            self._matrix_cs = None')], 'R9.5'),
     Entry('batch-guard-endpoints', BT, [('        if len(np.unique(T)) == 1:', '        if T[0] == T[-1]:')], 'R9.6'),
+    Entry('batch-guard-inverted', BT, [('        if len(np.unique(T)) == 1:', '        if len(np.unique(T)) != 1:')], 'R9.6'),
+    Entry('batch-guard-more-than-one', BT, [('        if len(np.unique(T)) == 1:', '        if len(np.unique(T)) >= 1:')], 'R9.6'),
     # benign
+    Entry('benign-batch-guard-swapped', BT, [('        if len(np.unique(T)) == 1:\n            caArray, cbArray = self._interfacialComposition(T[0], gExtra, precPhase)\n        else:\n            caArray, cbArray = zip(*[self._interfacialComposition(T[i], gExtra[i], precPhase) for i in range(len(T))])',
+                                               '        if len(np.unique(T)) > 1:\n            caArray, cbArray = zip(*[self._interfacialComposition(T[i], gExtra[i], precPhase) for i in range(len(T))])\n        else:\n            caArray, cbArray = self._interfacialComposition(T[0], gExtra, precPhase)')], kind='benign'),
     Entry('benign-batch-guard-all', BT, [('        if len(np.unique(T)) == 1:', '        if np.all(T == T[0]):')], kind='benign'),
     Entry('benign-cache-flag-explicit', DP, [('        if not self._cache:\n            return None', '        if self._cache is False:\n            return None')], kind='benign'),
     Entry('benign-offset-copy', BT, [('        gExtra = np.atleast_1d(gExtra) + self.gOffset\n', '        gExtra = np.array(gExtra, dtype=np.float64, ndmin=1)\n        gExtra += self.gOffset\n')], kind='benign'),
